@@ -21,7 +21,10 @@ Empty == [x \in {} |-> 0]
 Put(f, k, v) == [x \in DOMAIN f \cup {k} |-> IF x = k THEN v ELSE f[x]]
 Del(f, k) == [x \in DOMAIN f \ {k} |-> f[x]]
 Val(j) == [ver |-> j.ver, ph |-> j.phase, fins |-> ToSet(j.fins), val |-> j.val, owner |-> j.owner]
-F0 == [fin |-> FALSE, ignoreTd |-> FALSE, ignoreUntil |-> FALSE, cleanup |-> FALSE, ctrl |-> ""]
+(* skip / keep: "skipmode" - from that line on the transform function asks to skip every reconcile (SkipReconcileTag): an output  *)
+(* that exists stays as it is (keep = the ids whose output existed for a running input at that moment and whose input has stayed *)
+(* running since), no new output has to appear; clean-up of torn-down inputs goes on as always                                   *)
+F0 == [fin |-> FALSE, ignoreTd |-> FALSE, ignoreUntil |-> FALSE, cleanup |-> FALSE, ctrl |-> "", skip |-> FALSE, keep |-> {}]
 (* cleanup configuration: the dependents of input id are the outputs id and id + 10 *)
 Dependents(os, id) == {o \in DOMAIN os : o % 10 = id}
 Init == ins = Empty /\ outs = Empty /\ flags = F0 /\ l = 1 /\ tid = "" /\ bad = FALSE /\ exposed = {}
@@ -59,7 +62,8 @@ Write(e) ==
        Reject(IF flags.ignoreUntil /\ id \in ne
               THEN "finalizer-not-on-input-ignore-teardown" ELSE "finalizer-not-on-input-while-output-exists",
               [id |-> id, input |-> IF id \in DOMAIN ni THEN ni[id] ELSE "absent", output |-> no[id]], e.op)
-  ELSE ins' = ni /\ outs' = no /\ exposed' = ne /\ Keep
+  ELSE /\ ins' = ni /\ outs' = no /\ exposed' = ne /\ UNCHANGED <<tid, bad>>
+       /\ flags' = [flags EXCEPT !.keep = IF e.kind = "in" /\ (e.op = "destroy" \/ ~TreatedRunning(v)) THEN @ \ {e.id} ELSE @]
 
 Snap(js) == [id \in {j.id : j \in ToSet(js)} |-> Val((CHOOSE j \in ToSet(js) : j.id = id).v)]
 UnconvergedCleanup ==
@@ -70,7 +74,10 @@ UnconvergedTransform ==
   {id \in DOMAIN ins \cup DOMAIN outs :
      LET ie == id \in DOMAIN ins
          oe == id \in DOMAIN outs /\ outs[id].owner = flags.ctrl
-     IN ~( /\ (ie /\ TreatedRunning(ins[id])) => (oe /\ ((outs[id].ph = "running" /\ outs[id].val = 10 * ins[id].val) \/ Held(outs[id])))
+     IN ~( /\ (ie /\ TreatedRunning(ins[id])) =>
+                 IF flags.skip
+                 THEN (oe /\ (outs[id].ph = "running" \/ Held(outs[id]))) \/ (~oe /\ id \notin flags.keep)
+                 ELSE (oe /\ ((outs[id].ph = "running" /\ outs[id].val = 10 * ins[id].val) \/ Held(outs[id])))
            /\ (~ie) => (~oe \/ Held(outs[id]))
            /\ (ie /\ ~TreatedRunning(ins[id])) => ((~oe \/ Held(outs[id])) /\ (~oe => flags.ctrl \notin ins[id].fins)) )}
 Unconverged == IF flags.cleanup THEN UnconvergedCleanup ELSE UnconvergedTransform
@@ -85,10 +92,15 @@ Quiet(e) ==
 Next == /\ l <= Len(TraceLog) /\ l' = l + 1
         /\ LET e == TraceLog[l] IN
              IF e.ev = "reset" THEN /\ ins' = Empty /\ outs' = Empty /\ tid' = e.tid /\ bad' = FALSE /\ exposed' = {}
-                                    /\ flags' = [fin |-> e.fin, ignoreTd |-> e.ignoreTd, ignoreUntil |-> e.ignoreUntil, cleanup |-> e.cleanup, ctrl |-> e.ctrl]
+                                    /\ flags' = [fin |-> e.fin, ignoreTd |-> e.ignoreTd, ignoreUntil |-> e.ignoreUntil, cleanup |-> e.cleanup, ctrl |-> e.ctrl,
+                                                  skip |-> FALSE, keep |-> {}]
              ELSE IF bad THEN UNCHANGED <<ins, outs, flags, tid, bad, exposed>>
              ELSE CASE e.ev = "w" -> Write(e)
                     [] e.ev = "quiet" -> Quiet(e)
+                    [] e.ev = "skipmode" ->
+                         /\ flags' = [flags EXCEPT !.skip = TRUE,
+                                                   !.keep = {id \in DOMAIN outs : outs[id].owner = flags.ctrl /\ id \in DOMAIN ins /\ TreatedRunning(ins[id])}]
+                         /\ UNCHANGED <<ins, outs, tid, bad, exposed>>
                     [] OTHER -> UNCHANGED <<ins, outs, flags, tid, bad, exposed>>
 Spec == Init /\ [][Next]_tvars
 Consumed == TLCGet("stats").diameter - 1
